@@ -475,10 +475,17 @@ def pow_probe(ctx, fl, verdict, stats, nrows):
                                       rules=[fl.Rule.create("if a is hi then x is extremely p")])])
     xs = np.array([ctx.rng.uniform(0.5, 1.0) for _ in range(nrows)])
     ea, eb = mk(), mk()
-    with np.errstate(all="ignore"):
-        ea.input_values = xs
-        ea.process()
-    a = np.asarray(ea.output_variables[0].value, dtype=float)
+    try:
+        with np.errstate(all="ignore"):
+            ea.input_values = xs
+            ea.process()
+        a = np.asarray(ea.output_variables[0].value, dtype=float).reshape(nrows)
+    except Exception as ex:  # noqa
+        stats["pow_probe"] = {"rows": nrows, "differences": None}
+        stats["oracle_violations"] += 1
+        verdict.add_violation("batch:exception-mismatch", f"a 1-d batch of {nrows} values for the single input variable of `if a is hi then x is extremely p`: batch mode raises {type(ex).__name__}: {ex}",
+                              {"engine_fll": str(eb), "mode": "1d", "rows": [[float(x)] for x in xs[:8]], "warm_row": None})
+        return
     hits = []
     for i, x in enumerate(xs):
         eb.input_variables[0].value = float(x)
@@ -581,6 +588,44 @@ def run(ctx, build, verdict, ev):
              "error_classes": {}, "resolution1_batches": 0, "coq_skipped_big_table": 0, "oracle_violations": 0, "violation_signatures": {}}
     lits_a, lits_b, index = [], [], []
     distinct = set()
+    mism = {"batch": [], "rows": [], "setter": []}
+    counts = {"batch": 0, "rows": 0, "setter": 0}
+    coq_state = {"wave": 0, "failed": False}
+
+    def flush(set_lits=(), set_index=()):
+        """Evaluate the accumulated cases inside Coq (in waves, to bound memory in the thorough tier)."""
+        nonlocal lits_a, lits_b, index
+        if build.translation_errors or coq_state["failed"] or not (lits_a or lits_b or set_lits):
+            lits_a, lits_b, index = [], [], []
+            return
+        groups = [(T_BATCH, "check_batch", lits_a), (T_ROWS, "check_rows", lits_b), (T_SETTER, "check_setter", list(set_lits))]
+        name = f"c02w{coq_state['wave']}"
+        coq_state["wave"] += 1
+        bad, log = vlib.run_coq_cases(ctx.work, name, IMPORTS, groups, chunk=ctx.n(60, 120))
+        na, nb = len(lits_a), len(lits_b)
+        counts["batch"] += na
+        counts["rows"] += nb
+        counts["setter"] += len(set_lits)
+        for i in bad:
+            if i < 0:
+                verdict.add_broken("correspondence", "C02:coq-evaluation", log)
+                coq_state["failed"] = True
+                break
+            if i < na:
+                mism["batch"].append(index[i])
+            elif i < na + nb:
+                mism["rows"].append(index[i - na])
+            else:
+                mism["setter"].append(set_index[i - na - nb])
+        if not bad:  # keep the generated files of a wave only when something in it disagrees
+            import glob
+            import os
+
+            for fn in glob.glob(os.path.join(ctx.work, name + "_*")):
+                os.remove(fn)
+        lits_a, lits_b, index = [], [], []
+
+    samples = []
     n_engines, n_batches = ctx.n(150, 4000), ctx.n(3, 6)
     for kk in range(n_engines):
         desc, profile = gen_engine(ctx.rng)
@@ -597,31 +642,21 @@ def run(ctx, build, verdict, ev):
                 lits_a.append(res[0])
                 lits_b.append(res[1])
                 index.append({"engine": kk, "profile": profile, "kind": kind, "mode": mode, "rows": rows})
+                if len(samples) < 5 and kk % max(1, n_engines // 5) == 0 and (not samples or samples[-1]["engine"] != kk):
+                    samples.append(index[-1])
+        if len(lits_a) >= 1800:
+            flush()
     set_lits, set_index = setter_cases(ctx, fl, ctx.n(150, 1500))
     pow_probe(ctx, fl, verdict, stats, ctx.n(4000, 60000))
     examples_run(ctx, fl, verdict, stats, ctx.n(16, 64))
-
-    mism = {"batch": [], "rows": [], "setter": []}
-    if not build.translation_errors:
-        groups = [(T_BATCH, "check_batch", lits_a), (T_ROWS, "check_rows", lits_b), (T_SETTER, "check_setter", set_lits)]
-        bad, log = vlib.run_coq_cases(ctx.work, "c02", IMPORTS, groups, chunk=ctx.n(60, 120))
-        na, nb = len(lits_a), len(lits_b)
-        for i in bad:
-            if i < 0:
-                verdict.add_broken("correspondence", "C02:coq-evaluation", log)
-                break
-            if i < na:
-                mism["batch"].append(index[i])
-            elif i < na + nb:
-                mism["rows"].append(index[i - na])
-            else:
-                mism["setter"].append(set_index[i - na - nb])
+    flush(set_lits, set_index)
+    ncases = dict(counts)
     if mism["batch"]:
-        verdict.add_broken("correspondence", "Engine.process on a batch (Model/Batch.v process_batch)", f"vectorised model and implementation differ on {len(mism['batch'])} of {len(lits_a)} batches, first: {mism['batch'][:2]}")
+        verdict.add_broken("correspondence", "Engine.process on a batch (Model/Batch.v process_batch)", f"vectorised model and implementation differ on {len(mism['batch'])} of {ncases['batch']} batches, first: {mism['batch'][:2]}")
     if mism["rows"]:
-        verdict.add_broken("correspondence", "row-by-row reference (Model/Batch.v process_rows)", f"reference model and float-mode implementation differ on {len(mism['rows'])} of {len(lits_b)} batches, first: {mism['rows'][:2]}")
+        verdict.add_broken("correspondence", "row-by-row reference (Model/Batch.v process_rows)", f"reference model and float-mode implementation differ on {len(mism['rows'])} of {ncases['rows']} batches, first: {mism['rows'][:2]}")
     if mism["setter"]:
-        verdict.add_broken("correspondence", "Engine.input_values setter/getter", f"model and implementation differ on {len(mism['setter'])} of {len(set_lits)} cases, first: {mism['setter'][:3]}")
+        verdict.add_broken("correspondence", "Engine.input_values setter/getter", f"model and implementation differ on {len(mism['setter'])} of {ncases['setter']} cases, first: {mism['setter'][:3]}")
     c = ev["coverage"]
     c["evaluations"] = stats["rows"] + stats["examples"]["rows"] + stats["pow_probe"]["rows"]
     c["distinct_nontrivial"] = len(distinct)
@@ -633,10 +668,10 @@ def run(ctx, build, verdict, ev):
                  "Coq process_batch vs batch mode (same, with array shapes, and output_values); plus Engine.input_values setter/getter cases, a last-bit search on the hedge `extremely`, and every shipped example engine; "
                  "non-trivial = distinct (engine, batch) with >= 2 rows where a rule fired and the last row has a numeric output")
     c["distribution"] = stats
-    c["coq_cases"] = {"batch": len(lits_a), "rows": len(lits_b), "setter": len(set_lits)}
+    c["coq_cases"] = ncases
     c["correspondence_mismatches"] = sum(len(v) for v in mism.values())
     c["oracle_violations"] = stats["oracle_violations"]
-    c["samples"] = index[:: max(1, len(index) // 5)][:5]
+    c["samples"] = samples
     ev["assumptions"] += [
         "rule trees in the model are the trees the implementation loaded (parsing is C06's subject)",
         "Python value kinds (float / numpy.float64 / 0-d array) are not modelled; array SHAPES are",
